@@ -30,6 +30,7 @@ C_RESERVED = ["int", "while", "if", "else", "double", "return", "for", "restrict
               "struct", "bool", "true", "false", "malloc", "realloc", "free", "NULL", "main0"]
 SAFE_SPELLINGS = ["x", "Y", "aB", "t1", "q9z", "LongTensorNameNumber1", "vals", "pos", "crd", "evaluate", "compute", "assemble",
                   "p", "dim", "bucket", "written", "capacity", "end", "TACO", "taco", "order", "dimensions", "indices", "Z"]
+GENERATED_STEMS = ["p", "i", "written", "bucket", "pos", "crd", "vals", "dim", "capacity", "end"]
 KINDSETS = [("evaluate",), ("assemble",), ("compute",), ("assemble", "compute"), ("assemble", "compute", "evaluate")]
 DOCUMENTED = ("DiagonalAccessError", "NoKernelFoundError")
 CALL_BUDGET = 1_000_000_000
@@ -64,6 +65,19 @@ def classify(text, formats, exc_name, retry):
         f2 = {tmap[n]: f for n, f in formats.items()}
         if retry(gen.show_assignment(t2, e2), f2):
             return "identifier-collides-with-c-or-libc"
+    if names & set(GENERATED_STEMS):
+        target, tree = gen.parse(text)
+        tn = [target[1]] + list(gen.tensors_of(tree))
+        ins = []
+        for i in list(target[2]) + gen.indexes_of(tree):
+            if i not in ins:
+                ins.append(i)
+        tmap = {n: f"T{k}" for k, n in enumerate(tn)}
+        imap = {n: f"x{k}" for k, n in enumerate(ins)}
+        t2, e2 = rename_tree(target, tree, tmap, imap)
+        f2 = {tmap[n]: f for n, f in formats.items()}
+        if retry(gen.show_assignment(t2, e2), f2):
+            return "identifier-collides-with-generated-name"
     lits = re.findall(r"(?<![A-Za-z0-9_.])(\d+(?:\.\d+)?(?:[eE][+-]?\d+)?)", text)
     big = []
     for l in lits:
@@ -328,6 +342,9 @@ def shard(rec, tier, index, n_shards):
                 for lang in ("c", "llvm"):
                     one_request(rec, batch, text, {"a": "d", "b": "s"}, ("evaluate",), lang, "literal")
                 cli_request(rec, text, {"a": "d", "b": "s"}, ("evaluate",), "c")
+            for text, fm, lang in [("pos() = p(indices) * bucket(indices)", {"pos": "", "p": "s", "bucket": "s"}, "c"),
+                                   ("crd() = bucket(p,x)", {"crd": "", "bucket": "sd"}, "llvm")]:
+                one_request(rec, batch, text, fm, ("evaluate",), lang, "identifier-generated-stem")
             for real_text, fm in [("A(i,j) = B(i,k) * C(k,j)", {"A": "ds", "B": "ds", "C": "ds"}), ("a(i) = B(i,i)", {"a": "d", "B": "ds"}),
                                   ("A(i,j,k) = B(j,i,k)", {"A": "dds", "B": "dss"}), ("a(i) = b(i) +", {"a": "d"}),
                                   ("A(i,j) = B(i,j) + C(j,i)", {"A": "ss", "B": "ss", "C": "ss"})]:
